@@ -173,20 +173,30 @@ def execute(program, ch: Chooser) -> Result:  # noqa: C901, PLR0912
                         )
                     )
                 obs["blocks"][str(bid)] = {"caught": type(caught).__name__ if caught else None, "owner_pre": o_pre, "owner_post": o_post}
-            # the body's exception reaches the caller as the same object unless cleanup fails
-            raised = r.raised.get(bid)
-            child_failed = any(sp["end"] == "raise" for sp in r.all_spawned)
-            interrupted = isinstance(caught, asyncio.CancelledError) and child_failed
+            # whatever exception left the body reaches the caller as the same object unless the
+            # cleanup itself failed - or was interrupted by a task failing *during* the cleanup
+            left = r.body_exc.get(bid)
+            during_exit = any(
+                sp["end"] == "raise" and sp.get("end_phase", ("", None))[0] == "exiting" for sp in r.all_spawned
+            )
+            interrupted = isinstance(caught, asyncio.CancelledError) and during_exit
             if (
-                raised is not None
+                left is not None
                 and not cancelled
-                and not interrupted  # cleanup interrupted by a failing sibling task = cleanup failed
+                and not interrupted
                 and not r.exit_errors.get(bid)
                 and not _enter_failed(r, bid)
-                and caught is not raised
+                and caught is not left
             ):
                 viols.append(
-                    viol("same-exception", witness, f"{type(raised).__name__} raised by the body", f"{type(caught).__name__ if caught else None}", block=bid)
+                    viol(
+                        "same-exception",
+                        f"{witness}/{type(left).__name__}",
+                        f"the {type(left).__name__} object that left the body",
+                        f"{type(caught).__name__ if caught else None} (same object: False)",
+                        block=bid,
+                        trace=r.w.trace,
+                    )
                 )
         nontrivial = cancelled or any(
             b.get("ending", "return") != "return" or any(d["enter"] != "ok" or d["exit"] != "ok" for d in b.get("disp", [])) or any(s["kind"] == "raise" for s in b.get("spawns", []))
